@@ -176,7 +176,7 @@ def norm_path(p):
     i = 0
     while i < len(p):
         c = p[i]
-        if c == "<" and i > 0 and p[i - 1] == ":" and depth == 0:
+        if c == "<" and i > 0 and p[i - 1] == ":" and depth == 0 and not p.startswith("<impl ", i):
             # '::<' generic args -> drop including the preceding '::'
             depth = 1
             if out[-2:] == [":", ":"]:
@@ -639,8 +639,59 @@ class X:
             return "arg%d" % l
         return None
 
+    def resolve_idx(self, proj):
+        """Index(local) with a constant single-definition local -> ConstantIndex"""
+        if not any(e[0] == "i" for e in proj):
+            return proj
+        b = self.body
+        out = []
+        for e in proj:
+            if e[0] == "i":
+                sd = b.single_def(e[1])
+                if sd is not None and sd[1] != "term":
+                    rv = b.blocks[sd[0]].stmts[sd[1]].rv
+                    if rv.k == "use" and rv.ops[0].kind == "const" and isinstance(rv.ops[0].value(), int):
+                        out.append(("ci", rv.ops[0].value(), False, 0))
+                        continue
+            out.append(e)
+        return tuple(out)
+
+    def place_type(self, pl):
+        local, proj = pl
+        ty = self.body.locals[local]["ty"]
+        for e in proj:
+            if e[0] == "f":
+                ty = e[4]
+            elif e[0] == "*":
+                ty = re.sub(r"^&('\w+ )?(mut )?", "", ty)
+                ty = re.sub(r"^\*(const|mut) ", "", ty)
+                m = re.match(r"^(std|alloc)::boxed::Box<(.*)>$", ty)
+                if m:
+                    ty = m.group(2)
+            elif e[0] in ("i", "ci"):
+                m = re.match(r"^\[(.*?)(; \d+)?\]$", ty)
+                ty = m.group(1) if m else "?"
+            elif e[0] == "d":
+                pass
+            else:
+                ty = "?"
+        return ty
+
     def place(self, pl, d=None):
         d = self.depth if d is None else d
+        local, proj = pl
+        proj = self.resolve_idx(proj)
+        pl = (local, proj)
+        e = self._place(pl, d)
+        if e[0] in ("var", "tmp") and len(e) == 3:
+            # attach the type of the place when it is still known (leaf not re-projected)
+            try:
+                e = e + (self.place_type(pl),)
+            except Exception:
+                pass
+        return e
+
+    def _place(self, pl, d):
         local, proj = pl
         b = self.body
         # closure upvars etc.: longest named prefix
